@@ -104,6 +104,9 @@ func (w *world) request(tag string) {
 		w.bs.RangeStream(&proto.RangeRequest{Key: k, End: key(tag + ".end"), Revision: uint64(rev)}, &brainRange{stream{ctx}})
 	case 9:
 		wctx, cancel := context.WithCancel(ctx)
+		if zzverif.Choose(tag+".goneBefore", 2) == 1 {
+			cancel() // the client is gone before its watch is registered
+		}
 		done := make(chan struct{})
 		go func() {
 			w.bs.Watch(&proto.WatchRequest{Key: k, Revision: uint64(rev)}, &brainWatch{stream{wctx}})
@@ -150,6 +153,9 @@ func (w *world) request(tag string) {
 		w.es.Range(ctx, r)
 	default:
 		wctx, cancel := context.WithCancel(ctx)
+		if zzverif.Choose(tag+".goneBefore", 2) == 1 {
+			cancel() // the client is gone before its watch is registered
+		}
 		ws := &etcdWatch{stream: stream{wctx}, reqs: []*etcdserverpb.WatchRequest{{RequestUnion: &etcdserverpb.WatchRequest_CreateRequest{
 			CreateRequest: &etcdserverpb.WatchCreateRequest{Key: k, RangeEnd: key(tag + ".end"), StartRevision: rev}}}}}
 		go func() { w.es.Watch(ws) }()
@@ -174,11 +180,25 @@ func VerifC20NoCrash() {
 		zzverif.WaitIdle()
 	}
 	// the node keeps serving: a create followed by a get on a fresh key works
+	// ... and a new watch is registered and sees that create
 	fresh := []byte("/r/fresh")
+	wch, werr := be.Watch(context.Background(), "/r/fresh", 0)
+	zzverif.Assert(werr == nil, "a later watch is accepted")
 	cr, err := w.bs.Create(context.Background(), &proto.CreateRequest{Key: fresh, Value: []byte("v")})
 	zzverif.Assert(err == nil && cr.Succeeded, "a later create still succeeds")
 	zzverif.WaitIdle()
 	zzverif.Assert(be.GetCurrentRevision() >= cr.Header.Revision, "the later write becomes readable")
+	nev := 0
+	for more := true; more; {
+		select {
+		case b, ok := <-wch:
+			zzverif.Assert(ok, "the later watch stays open")
+			nev += len(b)
+		default:
+			more = false
+		}
+	}
+	zzverif.Assert(nev == 1, "the later watch receives the later write")
 	g, err := w.bs.Get(context.Background(), &proto.GetRequest{Key: fresh})
 	zzverif.Assert(err == nil && g.Kv != nil && string(g.Kv.Value) == "v", "a later read is answered correctly")
 	zzverif.Cover("done")
